@@ -89,4 +89,9 @@ func init() {
 		Monitors: func() []mon.Monitor { return []mon.Monitor{mon.NewC04()} },
 		Plan:     plan([]run.PlanItem{pi("swap-batch", 12), pi("mix", 4)}, []run.PlanItem{pi("swap-batch", 48), pi("mix", 16)}),
 		Assume:   []string{boundsAssume, "a request is judged only if its sender and recipient take part in no other swap request of the same block (single-message txs); tradeshield-executed swaps are not judged here"}}
+	run.Props["C10"] = &run.PropSpec{ID: "C10", Level: "exploration",
+		Rule:     "one evaluation = one (position, close-positions entry or sweep visit): the implementation's own health after the handler's interest/funding update, the safety factor and the trigger comparison measured on a branch immediately before that entry's turn (request list replayed entry by entry), against the before/after diff of every position and owner balance; or one successful open / consolidation / order-executed open (stored and recomputed health vs safety factor); distinct = (position, step, health, trigger, outcome) new",
+		Monitors: func() []mon.Monitor { return []mon.Monitor{mon.NewC10()} },
+		Plan:     plan([]run.PlanItem{pi("forced", 12), pi("mix", 4)}, []run.PlanItem{pi("forced", 48), pi("mix", 16)}),
+		Assume:   []string{boundsAssume, "health is measured with the implementation's own GetPositionHealth / GetMTPHealth; lists are replayed entry by entry with the module's own single-entry handler (assumes sequential list processing: liquidate, stop-loss, take-profit); both the stored health and the health recomputed after the tx are compared hard (no tolerance band)"}}
 }
